@@ -218,6 +218,11 @@ def check(prop, tier, seed):
         cev, cpath = simple.run_lab('call', cstims, tag, 'calls', annotate=decomp.annotate)
         simple.validate(prop, 'Trace_Call', verdict, cev, cpath, 'calls', cov, clause_filter=p_call.clause_filter('C03'), harness_clauses=p_call.HARNESS)
         cov['samples'].append({'family': 'calls', 'stimulus': simple.sample_of(cstims)})
+        # ... and on the wire of the complete transport server, where a response may also be synthesised for a call that failed in a layer
+        wstims = p_call.wire_stims(seed, tier)
+        wev, wpath = simple.run_lab('call', wstims, tag, 'wire_responses', annotate=decomp.annotate)
+        simple.validate(prop, 'Trace_Call', verdict, wev, wpath, 'wire_responses', cov, clause_filter=p_call.clause_filter('C03'), harness_clauses=p_call.HARNESS)
+        cov['samples'].append({'family': 'wire_responses', 'stimulus': simple.sample_of(wstims)})
     if prop == 'C06':
         # the limits as configured on generated clients / servers (max_{de,en}coding_message_size), end to end
         from . import p_call, simple
@@ -246,9 +251,15 @@ def check(prop, tier, seed):
 def replay(prop, path):
     core.build_harness()
     rows = core.read_ndjson(path)
-    stims = [r['stim'] for r in rows if r.get('e') == 'reset' and 'stim' in r]
+    stims = [r['stim'] for r in rows if r.get('e') == 'reset' and 'stim' in r and r.get('lab') != 'call']
+    cstims = [r['stim'] for r in rows if r.get('e') == 'reset' and 'stim' in r and r.get('lab') == 'call']
     verdict = core.Verdict(prop)
     cov = {'traces_validated_against_impl': 0, 'samples': []}
-    ev, p = _run_lab('replay', stims, f'{prop}_replay')
-    validate(prop, verdict, ev, p, 'replay', cov)
+    if stims:
+        ev, p = _run_lab('replay', stims, f'{prop}_replay')
+        validate(prop, verdict, ev, p, 'replay', cov)
+    if cstims:
+        from . import p_call, simple
+        ev, p = simple.run_lab('call', cstims, f'{prop}_replay', 'replay', annotate=decomp.annotate)
+        simple.validate(prop, 'Trace_Call', verdict, ev, p, 'replay', cov, clause_filter=p_call.clause_filter(prop), harness_clauses=p_call.HARNESS)
     return verdict.finish()
